@@ -90,7 +90,8 @@ def write_shards(d, rows, per):
     tail = ("Eval vm_compute in (mismatches_from shard_base cases).\n"
             "Eval vm_compute in (verdicts_from shard_base cases).\n"
             "Eval vm_compute in (hyp_stats cases).\n"
-            "Eval vm_compute in (outside_stats cases).\n")
+            "Eval vm_compute in (outside_stats cases).\n"
+            "Eval vm_compute in (sim_stats cases).\n")
     terms = []
     for i, r in enumerate(rows):
         t, errs = case_term(r)
@@ -116,7 +117,8 @@ def eval_dir(d, rows, per):
     names, parse_errors = write_shards(d, rows, per)
     res = vflib.run_shards(LAYER, d, "cases_mysql_*.v")
     mism, verdicts, errors = {}, {}, []
-    stats = {"modify_actions": 0, "modify_under_hypothesis": 0, "modify_on_autoinc_column": 0, "outside_known_classes": 0, "outside_and_holding": 0}
+    stats = {"modify_actions": 0, "modify_under_hypothesis": 0, "modify_on_autoinc_column": 0, "outside_known_classes": 0, "outside_and_holding": 0,
+             "actions_in_judged_migrations": 0, "actions_under_a_proved_sim_lemma": 0}
     for f, rc, o, dt in res:
         if rc != 0:
             errors.append({"shard": os.path.basename(f), "log": o[-1500:]})
@@ -146,6 +148,11 @@ def eval_dir(d, rows, per):
                 stats["modify_on_autoinc_column"] += a[2]
                 stats["outside_known_classes"] += b[0]
                 stats["outside_and_holding"] += b[1]
+        if len(blocks) >= 5:
+            c = vflib.parse_nat_list(blocks[4])
+            if len(c) == 2:
+                stats["actions_in_judged_migrations"] += c[0]
+                stats["actions_under_a_proved_sim_lemma"] += c[1]
     return mism, verdicts, errors, parse_errors, stats
 
 
@@ -280,3 +287,97 @@ def triage(res, known):
         if left:
             unexplained.append((int(i), left))
     return per, unexplained, skipped
+
+
+# ---------------------------------------------------------------------------------- parts of the aggregate C19 / C14 checks
+def _part_proofs(propfile):
+    rc, out = vflib.build_layer(LAYER)
+    if rc != 0:
+        return {"ok": False, "obligations": 0, "discharged": 0, "details": {"layer_build": out[-2000:]}}
+    bad = vflib.grep_forbidden(LAYER)
+    r = vflib.compile_property(LAYER, propfile)
+    unexpected = [a for a in r["axioms"] if a.split(".")[-1] not in {x.split(".")[-1] for x in vflib.AXIOM_ALLOW}]
+    ok = r["ok"] and not bad and not unexpected
+    return {"ok": ok, "obligations": r["obligations"], "discharged": r["discharged"] if ok else 0,
+            "details": {"theorems": r["theorems"], "closed_under_global_context": r["closed"], "axioms": r["axioms"], "forbidden": bad,
+                        "checker_cmd": "make -C coq/mysql && coqc coq/mysql/Properties/%s.v" % propfile,
+                        "log_tail": "" if r["ok"] else r["output"][-1500:]}}
+
+
+def c19_part(tier, seed):
+    """MySQL part of C19 (names symmetric between create and drop): pinned theorems of Properties/C19_mysql.v + the
+    tie K-sql(mysql) on this run's cases (the theorems speak about gen; K-sql says gen is what the implementation emits)."""
+    part = _part_proofs("C19_mysql")
+    res = run_mysql(tier, seed)
+    if "rows" not in res:
+        part["ok"] = False
+        part["details"]["correspondence"] = res
+        return part
+    rows = res["rows"]
+    n1 = sum(1 for s in res["mismatches"].values() if 1 in s)
+    kinds = collections.Counter(k for r in rows for k in r["action_kinds"])
+    part["details"]["K-sql(mysql)"] = {"cases": len(rows), "mismatches": n1, "shard_errors": len(res["errors"]), "unparsed": res.get("n_parse_errors", 0),
+                                       "create_path_actions": kinds.get("CreateTable", 0), "add_path_actions": kinds.get("AddConstraint", 0),
+                                       "drop_path_actions": kinds.get("RemoveConstraint", 0)}
+    part["details"]["refuted"] = ["C19_mysql_check_asymmetric_refuted (D11)", "C19_mysql_rename_table_refuted / C19_mysql_rename_then_drop_refused (D13, MySQL side)",
+                                  "never colliding: C04 known_C04_derived_name_collision (D16)"]
+    part["ok"] = part["ok"] and n1 == 0 and not res["errors"] and not res.get("n_parse_errors")
+    return part
+
+
+def c14_part(tier, seed):
+    """MySQL part of C14 (prefix renames tables and nothing else): pinned theorems of Properties/C14_mysql.v + oracle on the
+    implementation: the MySQL statements for the literally renamed project (prefix app_) = rename_stmt of the original ones,
+    and the model agrees on the renamed input; evaluated inside Coq."""
+    part = _part_proofs("C14_mysql")
+    err, binp = build_all()
+    if err:
+        part["ok"] = False
+        part["details"]["build"] = err
+        return part
+    sz = sizes(tier)
+    d = os.path.join(CACHE, "mysql_c14", "%s_%s" % (tier, seed))
+    shutil.rmtree(d, ignore_errors=True)
+    os.makedirs(d)
+    n = {"evolutions": max(20, sz["evolutions"] // 3), "hand": max(20, sz["hand"] // 3), "modseq": max(10, sz["modseq"] // 4)}
+    rc, out, _ = vflib.sh([binp, "gen", "--seed", str(seed), "--evolutions", str(n["evolutions"]), "--steps", str(sz["steps"]),
+                           "--hand", str(n["hand"]), "--modseq", str(n["modseq"]), "--no-enum", "1", "--literal", "app_",
+                           "--out", d, "--corpus", os.path.join(ROOT, "corpus", LAYER)], timeout=1200)
+    if rc != 0:
+        part["ok"] = False
+        part["details"]["harness"] = out[-1500:]
+        return part
+    rows = [json.loads(l) for l in open(os.path.join(d, "cases.jsonl"))]
+    per = sz["per_shard"]
+    terms, perr = [], []
+    for i, r in enumerate(rows):
+        t, e1 = case_term(r)
+        lit, e2 = impl_term({"result": r["literal"], "action_kinds": r["action_kinds"]})
+        perr += e1 + e2
+        terms.append("(%s,\n %s)" % (t, lit))
+    for si in range(0, len(terms), per):
+        with open(os.path.join(d, "lit_mysql_%03d.v" % (si // per)), "w") as f:
+            f.write("From VV.MYSQL Require Import PrefixCorr.\n\nDefinition cases : list (mysql_case * impl_result) := [\n")
+            f.write(";\n".join(terms[si:si + per]))
+            f.write("\n].\nEval vm_compute in (literal_mismatches_from \"app_\" %d cases).\n" % si)
+    res = vflib.run_shards(LAYER, d, "lit_mysql_*.v")
+    mism, errors = {}, []
+    for f, rc, o, dt in res:
+        if rc != 0:
+            errors.append({"shard": os.path.basename(f), "log": o[-1000:]})
+            continue
+        blocks = vflib.parse_eval_outputs(o)
+        for (i, subs) in vflib.parse_nat_pairs(blocks[0] if blocks else ""):
+            mism[i] = subs
+    first = None
+    if mism:
+        i = sorted(mism)[0]
+        first = {"baseline": rows[i]["baseline"], "plan": rows[i]["plan"], "mysql": rows[i]["result"], "mysql_literal_app_": rows[i]["literal"],
+                 "subchecks": mism[i]}
+    part["details"]["O-C14(mysql)"] = {"migrations": len(rows), "statements": sum(len(a) for r in rows for a in r["result"].get("ok", [])),
+                                       "implementation_not_equivariant": sum(1 for s in mism.values() if 1 in s),
+                                       "model_differs_on_renamed_input": sum(1 for s in mism.values() if 2 in s),
+                                       "shard_errors": errors[:2], "unparsed": perr[:3], "first_failing": first}
+    part["details"]["refuted"] = ["C14_mysql_with_prefix_inline_fk_refuted (D10: with_prefix is not the literal renaming for inline foreign keys)"]
+    part["ok"] = part["ok"] and not mism and not errors and not perr
+    return part
